@@ -79,7 +79,8 @@ ChainInsts ==
 \* 0.1 + 0.2, 1.1 * 1.1, 2.0 ** 0.5): a rewriting of the operator (reciprocal multiplication, fused forms ...) shows
 \* in the last bit; all literal/hidden twins of a pair form one group
 FPairs == << <<FBits("4617315517961601024"), FBits("4613937818241073152")>>, <<FBits("4613937818241073152"), FBits("4621819117588971520")>>, <<FBits("4632092954238910464"), FBits("4632092954238910464")>>,
-            <<FBits("4591870180066957722"), FBits("4596373779694328218")>>, <<FBits("4607632778762754458"), FBits("4607632778762754458")>>, <<FBits("4611686018427387904"), FBits("4602678819172646912")>> >>
+            <<FBits("4591870180066957722"), FBits("4596373779694328218")>>, <<FBits("4607632778762754458"), FBits("4607632778762754458")>>, <<FBits("4611686018427387904"), FBits("4602678819172646912")>>,
+            <<FBits("9223372036854775808"), FBits("0")>>, <<FBits("0"), FBits("9223372036854775808")>>, <<FBits("9223372036854775808"), FBits("9223372036854775808")>> >>
 FOpInsts ==
   {[name |-> "fop" \o op \o ToString(pi) \o "-" \o MaskStr(m), group |-> "fop" \o op \o ToString(pi),
     e |-> Bin(op, ArgF(FPairs[pi][1], m[1], 1), ArgF(FPairs[pi][2], m[2], 2)), rty |-> WFloat, allow |-> {}]
